@@ -95,6 +95,17 @@ fn classes(s: &Stream) -> Vec<&'static str> {
                 }
             }
         }
+        for c in 1..ns.len() {
+            let n = &ns[c];
+            if n.k == "map" && n.st == "block" && n.kids.len() >= 4 && ns[n.kids[0]].an == 1 {
+                let vals: Vec<usize> = n.kids.chunks(2).map(|kv| kv[1]).collect();
+                for (j, &v) in vals.iter().enumerate() {
+                    if j + 1 < vals.len() && (ns[v].k == "map" || ns[v].k == "seq") && ns[v].st == "block" && !out.contains(&"V2") {
+                        out.push("V2");
+                    }
+                }
+            }
+        }
         if d.cmp {
             for c in 1..ns.len() {
                 let n = &ns[c];
@@ -114,7 +125,7 @@ fn classes(s: &Stream) -> Vec<&'static str> {
 
 fn class_for(stage: &str, s: &Stream) -> String {
     let cl = classes(s);
-    let want: &[&str] = if stage.starts_with("validate") { &["V1"] } else { &["K1", "K2"] };
+    let want: &[&str] = if stage.starts_with("validate") { &["V1", "V2"] } else { &["K1", "K2"] };
     for w in want {
         if cl.contains(w) {
             return w.to_string();
